@@ -5,7 +5,9 @@ import (
 	"archive/zip"
 	"bytes"
 	"crypto"
+	"crypto/sha256"
 	"debug/macho"
+	"encoding/base64"
 	"encoding/binary"
 	"fmt"
 	"io"
@@ -700,7 +702,7 @@ func sigMember(format, name string) bool {
 }
 
 func TestC02_Semantic(t *testing.T) {
-	kinds := []string{"zip-replace", "zip-delete", "zip-add", "ps-graft", "ps-append-line", "pgp-graft", "pe-graft", "pe-append-after-table", "pe-append-inside-table", "cab-append", "xap-append", "msi-extra-stream", "msi-change-stream"}
+	kinds := []string{"zip-replace", "zip-delete", "zip-add", "jar-add-listed", "ps-append-after-block", "ps-graft", "ps-append-line", "pgp-graft", "pe-graft", "pe-append-after-table", "pe-append-inside-table", "cab-append", "xap-append", "msi-extra-stream", "msi-change-stream"}
 	reps := evid.EnvInt("VERIF_C02_SEMREPS", 8)
 	rapid.Check(t, func(t *rapid.T) {
 		for r := 0; r < reps; r++ {
@@ -771,6 +773,50 @@ func semanticOnce(t *rapid.T, kinds []string) {
 			if format == "xap" {
 				panic("skip-rep")
 			}
+		case kind == "jar-add-listed":
+			// a new member that is also listed, with a correct digest, in a new section of
+			// MANIFEST.MF: the per-member check is satisfied, only the manifest digest in the
+			// signature file still shows that the manifest changed
+			format := rapid.SampledFrom([]string{"jar", "jar", "apk"}).Draw(t, "zipformat")
+			sa = signOne(t, format, dir)
+			zr, err := zip.NewReader(bytes.NewReader(sa.data), int64(len(sa.data)))
+			if err != nil {
+				panic("skip-rep")
+			}
+			var manifest []byte
+			for _, f := range zr.File {
+				if f.Name == "META-INF/MANIFEST.MF" {
+					rc, _ := f.Open()
+					manifest, _ = io.ReadAll(rc)
+					rc.Close()
+				}
+			}
+			if manifest == nil || !bytes.Contains(manifest, []byte("-Digest: ")) {
+				panic("skip-rep") // v2-only APK
+			}
+			evil := []byte("evil class bytes")
+			sum := sha256.Sum256(evil)
+			if !bytes.HasSuffix(manifest, []byte("\r\n\r\n")) {
+				manifest = append(bytes.TrimRight(manifest, "\r\n"), []byte("\r\n\r\n")...)
+			}
+			manifest = append(manifest, []byte("Name: evil.class\r\nSHA-256-Digest: "+base64.StdEncoding.EncodeToString(sum[:])+"\r\n\r\n")...)
+			cd.Region = "member-added-and-listed:evil.class"
+			mutated, err = rewriteZip(sa.data, func(n string) (bool, []byte) {
+				if n == "META-INF/MANIFEST.MF" {
+					return false, manifest
+				}
+				return false, nil
+			}, map[string][]byte{"evil.class": evil})
+			if err != nil {
+				panic("skip-rep")
+			}
+		case kind == "ps-append-after-block":
+			// script text after the end of the signature block: PowerShell still runs it
+			sa = signOne(t, "ps", dir)
+			if !bytes.Contains(sa.data, []byte("# SIG # End signature block")) || filepath.Ext(sa.name) != ".ps1" && filepath.Ext(sa.name) != ".psm1" && filepath.Ext(sa.name) != ".psd1" {
+				panic("skip-rep")
+			}
+			mutated = append(append([]byte{}, sa.data...), []byte("Invoke-Evil\r\n")...)
 		case kind == "ps-graft" || kind == "ps-append-line":
 			sa = signOne(t, "ps", dir)
 			if kind == "ps-append-line" {
